@@ -8,6 +8,10 @@ From Coq Require Import Lia Sorting.Permutation.
 (* ---------- heaps related field-wise ---------- *)
 Definition proj_gss (x : organism) := (o_key x, o_genome x, o_species x, o_super x).
 Definition proj_gs (x : organism) := (o_key x, o_genome x, o_species x).
+(* everything the later phases of prepare leave alone: all but the super-champion counter, the
+   expected offspring and the population-champion flag *)
+Definition proj_e (x : organism) := (o_key x, o_genome x, o_species x, o_fit x, o_orig x, o_elim x, o_highest x).
+Definition proj_b (x : organism) := (proj_e x, o_super x).
 
 Definition heap_rel {T} (proj : organism -> T) (h h' : list organism) : Prop :=
   forall k, (forall x, hget h k = Ok x -> exists x', hget h' k = Ok x' /\ proj x' = proj x) /\
@@ -21,6 +25,23 @@ Proof.
   intros H1 H2 k. destruct (H1 k) as [F1 B1]. destruct (H2 k) as [F2 B2]. split.
   - intros x Hx. destruct (F1 x Hx) as [y [Hy Ey]]. destruct (F2 y Hy) as [z [Hz Ez]]. exists z. split; [exact Hz|congruence].
   - intros z Hz. destruct (B2 z Hz) as [y [Hy Ey]]. destruct (B1 y Hy) as [x [Hx Ex]]. exists x. split; [exact Hx|congruence].
+Qed.
+
+Lemma heap_rel_weaken_gen {T T'} (proj : organism -> T) (proj' : organism -> T') h h' :
+  (forall x y, proj x = proj y -> proj' x = proj' y) -> heap_rel proj h h' -> heap_rel proj' h h'.
+Proof.
+  intros Hp H k. destruct (H k) as [F B]. split.
+  - intros x Hx. destruct (F x Hx) as [y [Hy E]]. exists y. split; [exact Hy|now apply Hp].
+  - intros y Hy. destruct (B y Hy) as [x [Hx E]]. exists x. split; [exact Hx|now apply Hp].
+Qed.
+
+Lemma heap_rel_weaken_e h h' : heap_rel proj_e h h' -> heap_rel proj_gs h h'.
+Proof. apply heap_rel_weaken_gen. unfold proj_e, proj_gs. intros x y E. injection E as -> -> -> _ _ _ _. reflexivity. Qed.
+Lemma heap_rel_weaken_be h h' : heap_rel proj_b h h' -> heap_rel proj_e h h'.
+Proof. apply heap_rel_weaken_gen. unfold proj_b. intros x y E. apply (f_equal fst) in E. exact E. Qed.
+Lemma heap_rel_weaken_bs h h' : heap_rel proj_b h h' -> heap_rel proj_gss h h'.
+Proof.
+  apply heap_rel_weaken_gen. unfold proj_b, proj_e, proj_gss. intros x y E. injection E as -> -> -> _ _ _ _ ->. reflexivity.
 Qed.
 
 Lemma heap_rel_weaken h h' : heap_rel proj_gss h h' -> heap_rel proj_gs h h'.
@@ -163,4 +184,654 @@ Proof.
   apply (Permutation_trans (l' := fold_left (fun rp x => ins_rev lt x rp) l [])).
   - apply Permutation_sym. apply Permutation_rev.
   - specialize (H []). now rewrite app_nil_r in H.
+Qed.
+
+(* ---------- adjustFitness ---------- *)
+Lemma hgets_In h ks l x : hgets h ks = Ok l -> In x l -> exists k, In k ks /\ hget h k = Ok x.
+Proof.
+  intros H. apply hgets_ok in H. induction H as [|k y ks l Hy _ IH]; intros Hin; [destruct Hin|].
+  destruct Hin as [<-|Hin].
+  - exists k. split; [now left|exact Hy].
+  - destruct (IH Hin) as [k' [Hk' Hx]]. exists k'. split; [now right|exact Hx].
+Qed.
+
+Lemma mark_elim_keys l : forall i n, map o_key (mark_elim l i n) = map o_key l.
+Proof.
+  induction l as [|x l IH]; intros i n; cbn [mark_elim map]; [reflexivity|].
+  rewrite IH. destruct (Z.geb i n); reflexivity.
+Qed.
+
+Lemma mark_elim_In l : forall i n y, In y (mark_elim l i n) -> exists z, In z l /\ proj_gss y = proj_gss z.
+Proof.
+  induction l as [|x l IH]; intros i n y; cbn [mark_elim]; [intros []|].
+  intros [<-|H].
+  - exists x. split; [now left|]. destruct (Z.geb i n); reflexivity.
+  - destruct (IH _ _ _ H) as [z [Hz E]]. exists z. split; [now right|exact E].
+Qed.
+
+Lemma adjust_fitness_frame o h s h1 s1 :
+  adjust_fitness o h s = Ok (h1, s1) ->
+  heap_rel proj_gss h h1 /\ sp_id s1 = sp_id s /\ sp_exp s1 = sp_exp s /\ Permutation (sp_orgs s1) (sp_orgs s).
+Proof.
+  unfold adjust_fitness. cbv zeta. intros H. rbind H as orgs Horgs.
+  remember (sort_desc org_lt (map (adjust_one o (sp_age s)
+             (if Z.eqb (sp_age s - sp_lastimp s + 1 - o_dropoff o) 0 then 1 else sp_age s - sp_lastimp s + 1 - o_dropoff o)
+             (zlen orgs)) orgs)) as sorted eqn:Es.
+  destruct sorted as [|top r]; [discriminate|]. injection H as <- <-.
+  set (D := fun y : organism => exists x, hget h (o_key y) = Ok x /\ proj_gss y = proj_gss x).
+  assert (HD : forall y, In y (top :: r) -> D y).
+  { intros y Hy. rewrite Es in Hy. apply (Permutation_in _ (sort_desc_perm _ _)) in Hy.
+    apply in_map_iff in Hy. destruct Hy as [x [<- Hx]].
+    destruct (hgets_In _ _ _ _ Horgs Hx) as [k [_ Hk]]. exists x. split; [|reflexivity].
+    cbn [adjust_one o_with_fit o_with_orig o_key]. now rewrite (hget_key _ _ _ Hk). }
+  assert (Dproj : forall y z, proj_gss y = proj_gss z -> D z -> D y).
+  { intros y z E [x [Hx Ex]]. exists x. unfold proj_gss in E. injection E as Ek Eg Es' Esu.
+    split; [now rewrite Ek|]. unfold proj_gss in *. congruence. }
+  cbn [mark_elim]. split; [|split; [|split]].
+  - refine (heap_rel_hsets proj_gss (_ :: _) h _). intros y [<-|Hy].
+    + apply (Dproj _ top); [|apply HD; now left]. destruct (Z.geb 0 _); reflexivity.
+    + destruct (mark_elim_In _ _ _ _ Hy) as [z [Hz E]]. apply (Dproj _ z E). apply HD. now right.
+  - destruct (PrimFloat.ltb _ _); reflexivity.
+  - destruct (PrimFloat.ltb _ _); reflexivity.
+  - replace (sp_orgs _) with (map o_key (top :: r)).
+    + rewrite Es. apply (Permutation_trans (Permutation_map o_key (sort_desc_perm _ _))).
+      rewrite map_map. cbn [adjust_one o_with_fit o_with_orig o_key].
+      change (fun x : organism => o_key x) with o_key. rewrite (hgets_keys _ _ _ Horgs). apply Permutation_refl.
+    + destruct (PrimFloat.ltb _ _); cbn [sp_with_orgs sp_orgs map]; rewrite mark_elim_keys;
+        f_equal; destruct (Z.geb 0 _); reflexivity.
+Qed.
+
+Lemma adjust_all_frame o : forall l h h1 l1,
+  adjust_all o h l = Ok (h1, l1) ->
+  heap_rel proj_gss h h1 /\
+  Forall2 (fun s s1 => sp_id s1 = sp_id s /\ sp_exp s1 = sp_exp s /\ Permutation (sp_orgs s1) (sp_orgs s)) l l1.
+Proof.
+  induction l as [|s l IH]; intros h h1 l1 H; cbn [adjust_all] in H.
+  - injection H as <- <-. split; [apply heap_rel_refl|constructor].
+  - rbind H as r Hr. destruct r as [h0 s0]. rbind H as r2 Hr2. destruct r2 as [h2 l2]. injection H as <- <-.
+    apply adjust_fitness_frame in Hr. destruct Hr as [Hh Hs]. apply IH in Hr2. destruct Hr2 as [Hh2 Hl].
+    split; [exact (heap_rel_trans _ _ _ _ Hh Hh2)|]. constructor; assumption.
+Qed.
+
+(* consequences for the invariants *)
+Lemma Forall2_ids l l1 :
+  Forall2 (fun s s1 => sp_id s1 = sp_id s /\ sp_exp s1 = sp_exp s /\ Permutation (sp_orgs s1) (sp_orgs s)) l l1 ->
+  map sp_id l1 = map sp_id l.
+Proof. induction 1 as [|s s1 l l1 [E _] _ IH]; cbn [map]; [reflexivity|]. now rewrite E, IH. Qed.
+
+Lemma Forall2_In_r' {A B} (R : A -> B -> Prop) l l1 y : Forall2 R l l1 -> In y l1 -> exists x, In x l /\ R x y.
+Proof.
+  induction 1 as [|a b l l1 Hab _ IH]; intros Hin; [destruct Hin|].
+  destruct Hin as [<-|Hin]; [exists a; split; [now left|exact Hab]|].
+  destruct (IH Hin) as [x [Hx Hr]]. exists x. split; [now right|exact Hr].
+Qed.
+
+Lemma members_ok_perm h h' sps sps' :
+  heap_rel proj_gs h h' ->
+  Forall2 (fun s s1 => sp_id s1 = sp_id s /\ sp_exp s1 = sp_exp s /\ Permutation (sp_orgs s1) (sp_orgs s)) sps sps' ->
+  members_ok h sps -> members_ok h' sps'.
+Proof.
+  intros Hh Hf Hm s' k Hin Hk. destruct (Forall2_In_r' _ _ _ _ Hf Hin) as [s [Hs [Eid [_ Hp]]]].
+  apply (Permutation_in _ Hp) in Hk. destruct (Hm s k Hs Hk) as [x [Hx Esp]].
+  destruct (heap_rel_gs_fwd _ _ _ _ Hh Hx) as [x' [Hx' [_ Es]]]. exists x'. split; [exact Hx'|congruence].
+Qed.
+
+(* ---------- purgeZeroOffspringSpecies ---------- *)
+Lemma count_all_shape h : forall l skim total l2 t,
+  count_all h l skim total = Ok (l2, t) -> map sp_shape l2 = map sp_shape l.
+Proof.
+  induction l as [|s l IH]; intros skim total l2 t H; cbn [count_all] in H.
+  - injection H as <- _. reflexivity.
+  - rbind H as orgs Ho. destruct (count_offspring orgs 0 skim) as [e skim'].
+    rbind H as r Hr. destruct r as [l3 t3]. injection H as <- _. cbn [map]. f_equal. exact (IH _ _ _ _ Hr).
+Qed.
+
+Lemma sp_replace_ids l s : map sp_id (sp_replace l s) = map sp_id l.
+Proof.
+  induction l as [|x l IH]; cbn [sp_replace map]; [reflexivity|].
+  destruct (Z.eqb_spec (sp_id x) (sp_id s)) as [E|_]; cbn [map]; [now rewrite E|now rewrite IH].
+Qed.
+
+Lemma sp_replace_In l s s' : In s' (sp_replace l s) -> In s' l \/ s' = s.
+Proof.
+  induction l as [|x l IH]; cbn [sp_replace]; [intros []|].
+  destruct (Z.eqb (sp_id x) (sp_id s)).
+  - intros [<-|H]; [now right|left; now right].
+  - intros [<-|H]; [left; now left|]. destruct (IH H); [left; now right|now right].
+Qed.
+
+Lemma best_by_exp_In : forall l mx best b, best_by_exp l mx best = Some b -> best = Some b \/ In b l.
+Proof.
+  induction l as [|s l IH]; intros mx best b H; cbn [best_by_exp] in H; [now left|].
+  destruct (Z.geb (sp_exp s) mx).
+  - destruct (IH _ _ _ H) as [E|Hin]; [injection E as <-; right; now left|right; now right].
+  - destruct (IH _ _ _ H) as [E|Hin]; [now left|right; now right].
+Qed.
+
+Lemma NoDup_map_filter {A B} (f : A -> B) (p : A -> bool) l : NoDup (map f l) -> NoDup (map f (filter p l)).
+Proof.
+  induction l as [|x l IH]; cbn [map filter]; intros H; [constructor|].
+  inversion H as [|? ? Hnot Hnd]; subst. destruct (p x); cbn [map]; [|now apply IH].
+  constructor; [|now apply IH]. intros Hin. apply Hnot. apply in_map_iff in Hin. destruct Hin as [y [E Hy]].
+  apply filter_In in Hy. rewrite <- E. apply in_map. apply Hy.
+Qed.
+
+(* every species of [l'] has the id and members of a species of [l], position by position the same ids *)
+Definition shaped (l l' : list species) : Prop :=
+  map sp_id l' = map sp_id l /\ forall s', In s' l' -> exists s, In s l /\ sp_shape s' = sp_shape s.
+
+Lemma shaped_replace l l' b n :
+  shaped l l' -> (exists s, In s l /\ sp_shape b = sp_shape s) -> shaped l (sp_replace l' (sp_with_exp b n)).
+Proof.
+  intros [Hi Hs] [s [Hs0 E]]. split; [now rewrite sp_replace_ids|].
+  intros s' Hin. apply sp_replace_In in Hin. destruct Hin as [Hin| ->]; [now apply Hs|].
+  exists s. split; [exact Hs0|exact E].
+Qed.
+
+Lemma shaped_zero l l' : shaped l l' -> shaped l (map (fun s => sp_with_exp s 0) l').
+Proof.
+  intros [Hi Hs]. split.
+  - rewrite map_map. cbn [sp_with_exp sp_id]. exact Hi.
+  - intros s' Hin. apply in_map_iff in Hin. destruct Hin as [s0 [<- H0]]. destruct (Hs s0 H0) as [s [Hs0 E]].
+    exists s. split; [exact Hs0|exact E].
+Qed.
+
+Lemma purge_zero_frame p p' :
+  purge_zero_offspring p = Ok p' ->
+  heap_rel proj_b (p_heap p) (p_heap p') /\ p_orgs p' = p_orgs p /\ p_next_key p' = p_next_key p /\
+  (ids_nodup (p_species p) -> ids_nodup (p_species p')) /\
+  (forall s', In s' (p_species p') -> sp_exp s' > 0 /\ exists s, In s (p_species p) /\ sp_shape s' = sp_shape s).
+Proof.
+  unfold purge_zero_offspring. cbv zeta. intros H. rbind H as orgs Horgs. rbind H as r Hr. destruct r as [sps total].
+  injection H as <-. cbn [p_with p_heap p_orgs p_next_key p_species].
+  apply count_all_shape in Hr.
+  assert (Hsh : shaped (p_species p) sps).
+  { split; [now apply shape_ids|]. intros s' Hin. destruct (shape_in _ _ _ Hr Hin) as [s [Hs [E1 E2]]].
+    exists s. split; [exact Hs|]. unfold sp_shape. now rewrite E1, E2. }
+  clear Hr.
+  match goal with |- _ /\ _ /\ _ /\ (_ -> ids_nodup (filter _ ?X)) /\ _ => assert (Hsh2 : shaped (p_species p) X) end.
+  { destruct (Z.ltb total (zlen orgs)); [|exact Hsh].
+    destruct (best_by_exp sps 0 None) as [b|] eqn:Eb.
+    - assert (Hb : In b sps) by (destruct (best_by_exp_In _ _ _ _ Eb) as [E|Hin]; [discriminate|exact Hin]).
+      assert (Hb' : exists s, In s (p_species p) /\ sp_shape b = sp_shape s) by (apply Hsh; exact Hb).
+      destruct (Z.ltb _ _).
+      + apply shaped_replace; [|exact Hb']. apply shaped_zero. now apply shaped_replace.
+      + now apply shaped_replace.
+    - destruct (Z.ltb _ _); [now apply shaped_zero|exact Hsh]. }
+  match goal with |- _ /\ _ /\ _ /\ (_ -> ids_nodup (filter _ ?X)) /\ _ => generalize dependent X end.
+  intros X HX. split; [|split; [reflexivity|split; [reflexivity|split]]].
+  - destruct (PrimFloat.eqb _ _); [apply heap_rel_refl|].
+    apply heap_rel_hsets. intros y Hy. apply in_map_iff in Hy. destruct Hy as [x [<- Hx]].
+    destruct (hgets_In _ _ _ _ Horgs Hx) as [k [_ Hk]]. exists x. split; [|reflexivity].
+    cbn [o_with_exp o_key]. now rewrite (hget_key _ _ _ Hk).
+  - unfold ids_nodup. intros Hnd. apply NoDup_map_filter. destruct HX as [-> _]. exact Hnd.
+  - intros s' Hin. apply filter_In in Hin. destruct Hin as [Hin Hgt]. split; [apply Z.gtb_lt in Hgt; lia|].
+    destruct HX as [_ HX]. now apply HX.
+Qed.
+
+(* ---------- the bound: reserved super-champion offspring <= quota ---------- *)
+Definition S0 (h : list organism) : Prop := forall k x, hget h k = Ok x -> o_super x = 0.
+Definition E0 (sps : list species) : Prop := forall s, In s sps -> 0 <= sp_exp s.
+Definition Qb (h : list organism) (sps : list species) : Prop :=
+  forall s k x, In s sps -> In k (sp_orgs s) -> hget h k = Ok x -> 0 <= o_super x <= sp_exp s.
+
+Lemma S0_E0_Qb h sps : S0 h -> E0 sps -> Qb h sps.
+Proof. intros Hs He s k x Hin _ Hx. rewrite (Hs k x Hx). specialize (He s Hin). lia. Qed.
+
+Lemma S0_rel h h' : heap_rel proj_gss h h' -> S0 h -> S0 h'.
+Proof. intros Hr Hs k x' Hx'. destruct (heap_rel_gss_bwd _ _ _ _ Hr Hx') as [x [Hx ->]]. exact (Hs k x Hx). Qed.
+
+Lemma first_org_member h s c : first_org h s = Ok c -> In (o_key c) (sp_orgs s) /\ hget h (o_key c) = Ok c.
+Proof.
+  unfold first_org. destruct (sp_orgs s) as [|k r]; [discriminate|]. intros H.
+  rewrite (hget_key _ _ _ H). split; [now left|exact H].
+Qed.
+
+Lemma Q_step h sps s c n f :
+  ids_nodup sps -> members_ok h sps -> Qb h sps -> In s sps -> first_org h s = Ok c ->
+  (forall t, sp_shape (f t) = sp_shape t) ->
+  0 <= n <= sp_exp (f s) -> sp_exp s <= sp_exp (f s) ->
+  Qb (hset h (o_with_super c n)) (sp_set sps (sp_id s) f).
+Proof.
+  intros Hnd Hm Hq Hs Hc Hf Hn He s' k x Hin Hk Hx.
+  destruct (first_org_member _ _ _ Hc) as [Hcm Hcg].
+  apply sp_set_In in Hin. destruct Hin as [s0 [Hs0 [[Eid ->]|[Hne ->]]]].
+  - assert (s0 = s) by now apply (ids_nodup_eq sps). subst s0.
+    assert (Eo : sp_orgs (f s) = sp_orgs s) by (specialize (Hf s); unfold sp_shape in Hf; now injection Hf).
+    rewrite Eo in Hk. rewrite hget_hset in Hx. cbn [o_with_super o_key] in Hx.
+    destruct (Z.eqb (o_key c) k).
+    + injection Hx as <-. cbn [o_with_super o_super]. exact Hn.
+    + specialize (Hq s k x Hs Hk Hx). lia.
+  - rewrite hget_hset in Hx. cbn [o_with_super o_key] in Hx.
+    destruct (Z.eqb_spec (o_key c) k) as [<-|_].
+    + exfalso. apply Hne. exact (members_same_species h sps s0 s _ Hm Hs0 Hs Hk Hcm).
+    + exact (Hq s0 k x Hs0 Hk Hx).
+Qed.
+
+(* ---------- stolen babies ---------- *)
+Lemma steal_loop_inv o : forall rs sps stolen sps' stolen',
+  steal_loop o sps rs stolen = (sps', stolen') ->
+  ids_nodup sps -> E0 sps -> 0 <= stolen ->
+  map sp_shape sps' = map sp_shape sps /\ E0 sps' /\ 0 <= stolen'.
+Proof.
+  induction rs as [|id r IH]; intros sps stolen sps' stolen' H Hnd He Hst; cbn [steal_loop] in H.
+  - injection H as <- <-. now repeat split.
+  - destruct (Z.geb stolen (o_babies_stolen o)) eqn:Ege; [injection H as <- <-; now repeat split|].
+    destruct (sp_find sps id) as [s|] eqn:Ef; [|now apply (IH _ _ _ _ H)].
+    destruct (sp_find_In _ _ _ Ef) as [Hs Eid].
+    destruct (Z.gtb (sp_age s) 5 && Z.gtb (sp_exp s) 2) eqn:Ec; [|now apply (IH _ _ _ _ H)].
+    apply andb_prop in Ec. destruct Ec as [_ Eg2]. apply Z.gtb_lt in Eg2.
+    assert (Hbs : stolen < o_babies_stolen o) by (destruct (Z.geb_spec stolen (o_babies_stolen o)); [discriminate|lia]).
+    assert (Hgen : forall g, (forall t, sp_shape (g t) = sp_shape t) -> 0 <= sp_exp (g s) ->
+                   ids_nodup (sp_set sps id g) /\ E0 (sp_set sps id g) /\ map sp_shape (sp_set sps id g) = map sp_shape sps).
+    { intros g Hg Hge. assert (Hsh := sp_set_shape sps id g Hg). split; [|split; [|exact Hsh]].
+      - unfold ids_nodup. rewrite (shape_ids _ _ Hsh). exact Hnd.
+      - intros s' Hin. apply sp_set_In in Hin. destruct Hin as [s0 [Hs0 [[E0' ->]|[_ ->]]]]; [|now apply He].
+        assert (s0 = s) by (apply (ids_nodup_eq sps); try assumption; congruence). subst s0. exact Hge. }
+    destruct (Z.geb (sp_exp s - 1) (o_babies_stolen o - stolen)) eqn:Ege2.
+    + destruct (Hgen (fun s0 => sp_with_exp s0 (sp_exp s0 - (o_babies_stolen o - stolen)))) as [Hn' [He' Hsh]].
+      * reflexivity.
+      * cbn [sp_with_exp sp_exp]. destruct (Z.geb_spec (sp_exp s - 1) (o_babies_stolen o - stolen)); [lia|discriminate].
+      * destruct (IH _ _ _ _ H Hn' He') as [Hsh' R]; [lia|]. split; [congruence|exact R].
+    + destruct (Hgen (fun s0 => sp_with_exp s0 1)) as [Hn' [He' Hsh]].
+      * reflexivity.
+      * cbn. lia.
+      * destruct (IH _ _ _ _ H Hn' He') as [Hsh' R]; [lia|]. split; [congruence|exact R].
+Qed.
+
+Lemma post_bind2 {A B} (m : @M st A) (f : A -> @M st B) (Q : A -> Prop) (P : B -> Prop) :
+  post m Q -> (forall a, Q a -> post (f a) P) -> post (bindM m f) P.
+Proof.
+  intros Hm Hf s b s' H. apply bindM_ok in H. destruct H as [a [s1 [H1 H]]]. exact (Hf a (Hm _ _ _ H1) s1 b s' H).
+Qed.
+Lemma post_lift {A} (r : res A) (P : A -> Prop) : (forall a, r = Ok a -> P a) -> post (lift r) P.
+Proof. intros Hp s a s' H. apply lift_ok in H. destruct H as [H _]. now apply Hp. Qed.
+
+Section Give.
+  Variables (h0 : list organism) (sps0 : list species).
+  Hypothesis Hnd0 : ids_nodup sps0.
+  Hypothesis Hm0 : members_ok h0 sps0.
+
+  Definition GInv (acc : list species * list organism * Z) : Prop :=
+    let '(sps, h, stolen) := acc in
+    Qb h sps /\ 0 <= stolen /\ heap_rel proj_e h0 h /\ map sp_shape sps = map sp_shape sps0.
+
+  Lemma GInv_nd sps h st : GInv (sps, h, st) -> ids_nodup sps /\ members_ok h sps.
+  Proof.
+    intros [_ [_ [Hr Hs]]]. split.
+    - unfold ids_nodup. now rewrite (shape_ids _ _ Hs).
+    - exact (members_ok_shape _ _ _ _ (heap_rel_weaken_e _ _ Hr) Hs Hm0).
+  Qed.
+
+  Lemma GInv_step sps h stolen id s n h1 stolen' :
+    GInv (sps, h, stolen) -> sp_find sps id = Some s -> set_champ_super h s n = Ok h1 ->
+    0 <= n -> 0 <= stolen' ->
+    GInv (sp_set sps id (fun s => sp_with_exp s (sp_exp s + n)), h1, stolen').
+  Proof.
+    intros Hinv Ef Hh1 Hn Hst. destruct (GInv_nd _ _ _ Hinv) as [Hnd Hm]. destruct Hinv as [Hq [_ [Hr Hs]]].
+    destruct (sp_find_In _ _ _ Ef) as [Hin Eid]. unfold set_champ_super in Hh1. rbind Hh1 as c Hc. injection Hh1 as <-.
+    destruct (first_org_member _ _ _ Hc) as [_ Hcg].
+    assert (E0s : 0 <= sp_exp s).
+    { destruct (first_org_member _ _ _ Hc) as [Hcm _]. specialize (Hq s _ c Hin Hcm Hcg). lia. }
+    split; [|split; [exact Hst|split]].
+    - rewrite <- Eid. apply Q_step; try assumption; cbn [sp_with_exp sp_exp]; try reflexivity; lia.
+    - apply (heap_rel_trans _ _ _ _ Hr). now apply (heap_rel_hset _ _ c).
+    - rewrite sp_set_shape; [exact Hs|reflexivity].
+  Qed.
+
+  Lemma give_loop_inv o blocks :
+    (forall i, 0 <= nth i blocks 0) ->
+    forall sorted bi acc, GInv acc -> post (give_loop o sorted bi blocks acc) GInv.
+  Proof.
+    intros Hb. induction sorted as [|id r IH]; intros bi acc Hinv; cbn [give_loop].
+    - now apply post_ret.
+    - destruct acc as [[sps h] stolen]. destruct (sp_find sps id) as [s|] eqn:Ef; [|apply post_fail_panic].
+      destruct (Z.gtb _ _); [now apply IH|].
+      assert (Hst0 : 0 <= stolen) by (destruct Hinv as [_ [H _]]; exact H).
+      apply (post_bind2 _ _ GInv).
+      + destruct (Z.ltb bi 3 && Z.geb stolen (nth (Z.to_nat bi) blocks 0)) eqn:E1.
+        * apply andb_prop in E1. destruct E1 as [_ E1].
+          apply (post_bind2 _ _ (fun h1 => set_champ_super h s (nth (Z.to_nat bi) blocks 0) = Ok h1)); [now apply post_lift|].
+          intros h1 Hh1. apply post_ret. apply (GInv_step _ _ _ _ _ _ _ _ Hinv Ef Hh1 (Hb _)).
+          destruct (Z.geb_spec stolen (nth (Z.to_nat bi) blocks 0)); [lia|discriminate].
+        * destruct (Z.geb bi 3); [|now apply post_ret].
+          apply post_bind. intros rr. destruct (PrimFloat.ltb _ rr); [|now apply post_ret].
+          destruct (Z.gtb stolen 3) eqn:E3.
+          -- apply (post_bind2 _ _ (fun h1 => set_champ_super h s 3 = Ok h1)); [now apply post_lift|].
+             intros h1 Hh1. apply post_ret. apply (GInv_step _ _ _ _ _ _ _ _ Hinv Ef Hh1); [lia|].
+             apply Z.gtb_lt in E3. lia.
+          -- apply (post_bind2 _ _ (fun h1 => set_champ_super h s stolen = Ok h1)); [now apply post_lift|].
+             intros h1 Hh1. apply post_ret. apply (GInv_step _ _ _ _ _ _ _ _ Hinv Ef Hh1); lia.
+      + intros [[sps' h'] stolen'] Hacc'. destruct (Z.leb stolen' 0); [now apply post_ret|now apply IH].
+  Qed.
+End Give.
+
+Definition prep_post (p p' : population) : Prop :=
+  Qb (p_heap p') (p_species p') /\ heap_rel proj_e (p_heap p) (p_heap p') /\
+  map sp_shape (p_species p') = map sp_shape (p_species p) /\ p_orgs p' = p_orgs p /\ p_next_key p' = p_next_key p.
+
+Lemma give_babies_inv o p sorted :
+  0 < o_babies_stolen o -> ids_nodup (p_species p) -> members_ok (p_heap p) (p_species p) ->
+  S0 (p_heap p) -> E0 (p_species p) ->
+  post (give_babies o p sorted) (prep_post p).
+Proof.
+  intros Hbs Hnd Hm Hs0 He0. unfold give_babies.
+  destruct (steal_loop o (p_species p) (rev sorted) 0) as [sps1 stolen] eqn:Est.
+  destruct (steal_loop_inv _ _ _ _ _ _ Est Hnd He0 (Z.le_refl 0)) as [Hsh1 [He1 Hst1]].
+  assert (Hnd1 : ids_nodup sps1) by (unfold ids_nodup; now rewrite (shape_ids _ _ Hsh1)).
+  assert (Hm1 : members_ok (p_heap p) sps1) by exact (members_ok_shape _ _ _ _ (heap_rel_refl _ _) Hsh1 Hm).
+  assert (Hq : 0 <= Z.quot (o_babies_stolen o) 5 /\ 0 <= Z.quot (o_babies_stolen o) 10) by (split; apply Z.quot_pos; lia).
+  apply (post_bind2 _ _ (GInv (p_heap p) sps1)).
+  - apply (give_loop_inv _ _ Hnd1 Hm1).
+    + intros i. destruct i as [|[|[|[|i]]]]; cbn [nth]; lia.
+    + unfold GInv. split; [now apply S0_E0_Qb|]. split; [exact Hst1|]. split; [apply heap_rel_refl|reflexivity].
+  - intros [[sps2 h2] leftover] Hinv.
+    destruct (GInv_nd _ _ Hnd1 Hm1 _ _ _ Hinv) as [Hnd2 Hm2]. destruct Hinv as [Hq2 [Hl [Hr2 Hsh2]]].
+    destruct (Z.gtb leftover 0) eqn:El.
+    + destruct sorted as [|id r]; [apply post_fail_panic|].
+      destruct (sp_find sps2 id) as [s|] eqn:Ef; [|apply post_fail_panic].
+      destruct (sp_find_In _ _ _ Ef) as [Hin Eid].
+      apply (post_bind2 _ _ (fun c => first_org h2 s = Ok c)); [now apply post_lift|].
+      intros c Hc. apply post_ret. unfold prep_post. cbn [p_with p_heap p_species p_orgs p_next_key].
+      destruct (first_org_member _ _ _ Hc) as [Hcm Hcg]. pose proof (Hq2 s _ c Hin Hcm Hcg) as Hb.
+      apply Z.gtb_lt in El.
+      split; [|split; [|split; [|split; reflexivity]]].
+      * rewrite <- Eid. apply Q_step; try assumption; cbn [sp_with_exp sp_exp]; try reflexivity; lia.
+      * apply (heap_rel_trans _ _ _ _ Hr2). now apply (heap_rel_hset _ _ c).
+      * rewrite sp_set_shape; [congruence|reflexivity].
+    + apply post_ret. unfold prep_post. cbn [p_with p_heap p_species p_orgs p_next_key].
+      split; [exact Hq2|]. split; [exact Hr2|]. split; [congruence|]. now split.
+Qed.
+
+(* ---------- delta coding ---------- *)
+Definition zero_exp (acc : list species) (id : Z) : list species := sp_set acc id (fun s => sp_with_exp s 0).
+
+Lemma fold_zero_shape rest : forall l, map sp_shape (fold_left zero_exp rest l) = map sp_shape l.
+Proof.
+  induction rest as [|id r IH]; intros l; cbn [fold_left]; [reflexivity|].
+  rewrite IH. unfold zero_exp. now apply sp_set_shape.
+Qed.
+
+Lemma fold_zero_In rest : forall l s', In s' (fold_left zero_exp rest l) ->
+  exists s, In s l /\ sp_shape s' = sp_shape s /\
+            ((In (sp_id s) rest /\ sp_exp s' = 0) \/ (~ In (sp_id s) rest /\ s' = s)).
+Proof.
+  induction rest as [|id r IH]; intros l s' H; cbn [fold_left] in H.
+  - exists s'. split; [exact H|]. split; [reflexivity|]. right. split; [intros []|reflexivity].
+  - destruct (IH _ _ H) as [s1 [H1 [Esh Hc]]]. unfold zero_exp in H1. apply sp_set_In in H1.
+    destruct H1 as [s [Hs [[Eid ->]|[Hne ->]]]].
+    + exists s. split; [exact Hs|]. split; [exact Esh|]. left. split; [left; now symmetry|].
+      destruct Hc as [[_ E]|[_ ->]]; [exact E|reflexivity].
+    + exists s. split; [exact Hs|]. split; [exact Esh|].
+      destruct Hc as [[Hin E]|[Hnin ->]]; [left; split; [now right|exact E]|right].
+      split; [|reflexivity]. intros [E|Hin]; [now apply Hne|now apply Hnin].
+Qed.
+
+Lemma quot2_bounds n : 0 <= n -> 0 <= Z.quot n 2 <= n.
+Proof.
+  intros Hn. rewrite Z.quot_div_nonneg by lia. split; [apply Z.div_pos; lia|].
+  apply Z.div_le_upper_bound; lia.
+Qed.
+
+Lemma delta_coding_inv o p sorted p' :
+  delta_coding o p sorted = Ok p' ->
+  0 <= o_pop_size o -> NoDup sorted ->
+  ids_nodup (p_species p) -> members_ok (p_heap p) (p_species p) -> S0 (p_heap p) -> E0 (p_species p) ->
+  prep_post p p'.
+Proof.
+  intros H Hpop Hsd Hnd Hm Hs0 He0. unfold delta_coding in H. cbv zeta in H.
+  pose proof (quot2_bounds _ Hpop) as Hhalf.
+  destruct sorted as [|a [|b rest]]; [discriminate| |].
+  - (* one species *)
+    destruct (sp_find (p_species p) a) as [sa|] eqn:Efa; [|discriminate]. cbn [bind] in H.
+    rbind H as h1 Hh1. injection H as <-. unfold set_champ_super in Hh1. rbind Hh1 as ca Hca. injection Hh1 as <-.
+    destruct (sp_find_In _ _ _ Efa) as [Hina Eida]. destruct (first_org_member _ _ _ Hca) as [Hcam Hcag].
+    unfold prep_post. cbn [p_with p_with_stagnation p_heap p_species p_orgs p_next_key].
+    split; [|split; [|split; [|split; reflexivity]]].
+    + intros s' k x Hin Hk Hx. apply sp_set_In in Hin. rewrite hget_hset in Hx. cbn [o_with_super o_key] in Hx.
+      destruct Hin as [s0 [Hs0' [[Eid ->]|[Hne ->]]]]; cbn [sp_exp sp_orgs] in *.
+      * destruct (Z.eqb (o_key ca) k); [injection Hx as <-; cbn; lia|]. rewrite (Hs0 k x Hx). lia.
+      * destruct (Z.eqb_spec (o_key ca) k) as [<-|_].
+        -- exfalso. apply Hne. rewrite <- Eida. exact (members_same_species _ _ s0 sa _ Hm Hs0' Hina Hk Hcam).
+        -- rewrite (Hs0 k x Hx). specialize (He0 s0 Hs0'). lia.
+    + now apply (heap_rel_hset _ _ ca).
+    + now apply sp_set_shape.
+  - (* two or more *)
+    destruct (sp_find (p_species p) a) as [sa|] eqn:Efa; [|discriminate]. cbn [bind] in H.
+    destruct (sp_find (p_species p) b) as [sb|] eqn:Efb; [|discriminate]. cbn [bind] in H.
+    rbind H as h1 Hh1. rbind H as h2 Hh2. injection H as <-.
+    unfold set_champ_super in Hh1, Hh2. rbind Hh1 as ca Hca. injection Hh1 as <-.
+    rbind Hh2 as cb Hcb. injection Hh2 as <-.
+    destruct (sp_find_In _ _ _ Efa) as [Hina Eida]. destruct (sp_find_In _ _ _ Efb) as [Hinb Eidb].
+    destruct (first_org_member _ _ _ Hca) as [Hcam Hcag]. destruct (first_org_member _ _ _ Hcb) as [Hcbm Hcbg].
+    inversion Hsd as [|? ? Hna Hsd1]; subst. inversion Hsd1 as [|? ? Hnb Hsd2]; subst.
+    assert (Hab : sp_id sa <> sp_id sb) by (intros E; apply Hna; left; now symmetry).
+    assert (Hr1 : heap_rel proj_e (p_heap p) (hset (p_heap p) (o_with_super ca (Z.quot (o_pop_size o) 2))))
+      by now apply (heap_rel_hset _ _ ca).
+    unfold prep_post. cbn [p_with p_with_stagnation p_heap p_species p_orgs p_next_key].
+    split; [|split; [|split; [|split; reflexivity]]].
+    + intros s' k x Hin Hk Hx.
+      change (fold_left _ rest ?l) with (fold_left zero_exp rest l) in Hin.
+      apply fold_zero_In in Hin. destruct Hin as [s2 [Hs2 [Esh2 Hc2]]].
+      apply sp_set_In in Hs2. destruct Hs2 as [s1 [Hs1 Hc1]]. apply sp_set_In in Hs1. destruct Hs1 as [s0 [Hs0' Hc0]].
+      assert (E21 : sp_shape s2 = sp_shape s1) by (destruct Hc1 as [[_ ->]|[_ ->]]; reflexivity).
+      assert (E10 : sp_shape s1 = sp_shape s0) by (destruct Hc0 as [[_ ->]|[_ ->]]; reflexivity).
+      assert (Esh : sp_shape s' = sp_shape s0) by congruence.
+      unfold sp_shape in Esh, E21, E10. injection Esh as Eid' Eorgs'. injection E21 as Eid21 _. injection E10 as Eid10 _.
+      rewrite Eorgs' in Hk.
+      assert (Hcbm' : In (o_key cb) (sp_orgs sb)) by exact Hcbm.
+      (* the key of cb in the first heap *)
+      assert (Hcb0 : exists cb0, hget (p_heap p) (o_key cb) = Ok cb0).
+      { destruct (heap_rel_gs_bwd _ _ _ _ (heap_rel_weaken_e _ _ Hr1) Hcbg) as [cb0 [H0 _]]. now exists cb0. }
+      rewrite !hget_hset in Hx. cbn [o_with_super o_key] in Hx.
+      destruct (Z.eqb_spec (o_key cb) k) as [Ek|Hnk].
+      * injection Hx as <-. cbn [o_with_super o_super].
+        assert (E0b : sp_id s0 = sp_id sb) by (subst k; exact (members_same_species _ _ s0 sb _ Hm Hs0' Hinb Hk Hcbm)).
+        assert (Hs1' : s1 = s0 \/ sp_id s1 = sp_id s0) by (right; exact Eid10).
+        destruct Hc2 as [[Hin2 _]|[_ ->]]; [exfalso; apply Hnb; rewrite <- E0b, <- Eid10, <- Eid21; exact Hin2|].
+        destruct Hc1 as [[_ ->]|[Hne1 _]]; [cbn [sp_exp]; lia|]. exfalso. apply Hne1. congruence.
+      * destruct (Z.eqb_spec (o_key ca) k) as [Ek|Hnk2].
+        -- injection Hx as <-. cbn [o_with_super o_super].
+           assert (E0a : sp_id s0 = sp_id sa) by (subst k; exact (members_same_species _ _ s0 sa _ Hm Hs0' Hina Hk Hcam)).
+           destruct Hc2 as [[Hin2 _]|[_ ->]];
+             [exfalso; apply Hna; right; rewrite <- E0a, <- Eid10, <- Eid21; exact Hin2|].
+           destruct Hc1 as [[E1b _]|[_ ->]]; [exfalso; apply Hab; congruence|].
+           destruct Hc0 as [[_ ->]|[Hne0 _]]; [cbn [sp_exp]; lia|]. exfalso. apply Hne0. congruence.
+        -- rewrite (Hs0 k x Hx).
+           destruct Hc2 as [[_ ->]|[_ ->]]; [lia|].
+           destruct Hc1 as [[_ ->]|[_ ->]]; [cbn [sp_exp]; lia|].
+           destruct Hc0 as [[_ ->]|[_ ->]]; [cbn [sp_exp]; lia|]. specialize (He0 s0 Hs0'). lia.
+    + apply (heap_rel_trans _ _ _ _ Hr1). now apply (heap_rel_hset _ _ cb).
+    + change (fold_left _ rest ?l) with (fold_left zero_exp rest l). rewrite fold_zero_shape.
+      rewrite sp_set_shape by reflexivity. now apply sp_set_shape.
+Qed.
+
+(* ---------- purgeOrganisms ---------- *)
+Definition purged (h : list organism) (s s' : species) : Prop :=
+  sp_id s' = sp_id s /\ sp_exp s' = sp_exp s /\
+  exists g, sp_orgs s' = filter g (sp_orgs s) /\
+            forall k, g k = false -> exists x, hget h k = Ok x /\ o_elim x = true.
+
+Lemma purged_refl h s : purged h s s.
+Proof.
+  split; [reflexivity|split; [reflexivity|]]. exists (fun _ => true). split; [|discriminate].
+  induction (sp_orgs s) as [|k l IH]; cbn [filter]; [reflexivity|now rewrite <- IH].
+Qed.
+
+Lemma filter_filter {A} (g1 g2 : A -> bool) l : filter g2 (filter g1 l) = filter (fun x => g1 x && g2 x) l.
+Proof.
+  induction l as [|x l IH]; cbn [filter]; [reflexivity|].
+  destruct (g1 x); cbn [filter andb]; [destruct (g2 x); now rewrite IH|exact IH].
+Qed.
+
+Lemma purged_trans h a b c : purged h a b -> purged h b c -> purged h a c.
+Proof.
+  intros [I1 [E1 [g1 [O1 G1]]]] [I2 [E2 [g2 [O2 G2]]]]. split; [congruence|split; [congruence|]].
+  exists (fun k => g1 k && g2 k). split; [now rewrite O2, O1, filter_filter|].
+  intros k Hk. apply andb_false_iff in Hk. destruct Hk as [Hk|Hk]; [now apply G1|now apply G2].
+Qed.
+
+Lemma Forall2_refl {A} (R : A -> A -> Prop) l : (forall x, R x x) -> Forall2 R l l.
+Proof. intros H. induction l; constructor; auto. Qed.
+
+Lemma Forall2_trans {A} (R : A -> A -> Prop) : (forall a b c, R a b -> R b c -> R a c) ->
+  forall l1 l2 l3, Forall2 R l1 l2 -> Forall2 R l2 l3 -> Forall2 R l1 l3.
+Proof.
+  intros HR l1 l2 l3 H12. revert l3. induction H12 as [|a b l1 l2 Hab _ IH]; intros l3 H23; inversion H23; subst; constructor.
+  - eapply HR; eauto.
+  - now apply IH.
+Qed.
+
+Lemma remove_org_purged h l sid k l' :
+  remove_org l sid k = Ok l' -> (exists x, hget h k = Ok x /\ o_elim x = true) -> Forall2 (purged h) l l'.
+Proof.
+  unfold remove_org. intros H Hx. destruct (sp_find l sid) as [s|] eqn:Ef; [|discriminate].
+  destruct (_ && _); [|discriminate]. injection H as <-.
+  revert Ef. induction l as [|y l IH]; cbn [sp_find sp_replace]; [discriminate|].
+  cbn [sp_with_orgs sp_id]. destruct (Z.eqb_spec (sp_id y) sid) as [E|Hne].
+  - intros Hs. injection Hs as ->. rewrite E. subst sid. rewrite Z.eqb_refl. constructor.
+    + split; [reflexivity|split; [reflexivity|]]. exists (fun x => negb (Z.eqb x k)). split; [reflexivity|].
+      intros k' Hk'. apply negb_false_iff in Hk'. apply Z.eqb_eq in Hk'. now subst k'.
+    + apply Forall2_refl. apply purged_refl.
+  - intros Hs. destruct (sp_find_In _ _ _ Hs) as [_ Eid]. rewrite Eid.
+    destruct (Z.eqb_spec (sp_id y) sid); [contradiction|]. constructor; [apply purged_refl|now apply IH].
+Qed.
+
+Lemma purge_organisms_loop_frame : forall ks p keep p',
+  purge_organisms_loop p ks keep = Ok p' ->
+  p_heap p' = p_heap p /\ p_next_key p' = p_next_key p /\
+  Forall2 (purged (p_heap p)) (p_species p) (p_species p') /\
+  (forall k, In k (p_orgs p') -> In k ks \/ In k keep).
+Proof.
+  induction ks as [|k ks IH]; intros p keep p' H; cbn [purge_organisms_loop] in H.
+  - injection H as <-. cbn [p_with p_heap p_next_key p_species p_orgs]. split; [reflexivity|split; [reflexivity|split]].
+    + apply Forall2_refl. apply purged_refl.
+    + intros k Hk. right. now apply in_rev.
+  - rbind H as x Hx. destruct (o_elim x) eqn:Eel.
+    + rbind H as p1 Hp1. destruct (IH _ _ _ H) as [Hh [Hn [Hf Ho]]].
+      assert (Hp : p_heap p1 = p_heap p /\ p_next_key p1 = p_next_key p /\ Forall2 (purged (p_heap p)) (p_species p) (p_species p1)).
+      { unfold remove_from_species in Hp1. destruct (sp_find (p_species p) (o_species x)).
+        - rbind Hp1 as l Hl. injection Hp1 as <-. cbn [p_with p_heap p_next_key p_species]. repeat split.
+          rewrite (hget_key _ _ _ Hx) in Hl. apply (remove_org_purged _ _ _ _ _ Hl). now exists x.
+        - rbind Hp1 as l Hl. injection Hp1 as <-. cbn [p_with p_heap p_next_key p_species]. repeat split.
+          apply Forall2_refl. apply purged_refl. }
+      destruct Hp as [Hh1 [Hn1 Hf1]]. split; [congruence|split; [congruence|split]].
+      * rewrite Hh1 in Hf. exact (Forall2_trans _ (purged_trans _) _ _ _ Hf1 Hf).
+      * intros k' Hk'. destruct (Ho k' Hk'); [left; now right|now right].
+    + destruct (IH _ _ _ H) as [Hh [Hn [Hf Ho]]]. split; [exact Hh|split; [exact Hn|split; [exact Hf|]]].
+      intros k' Hk'. destruct (Ho k' Hk') as [Hin|[<-|Hin]]; [left; now right|left; now left|now right].
+Qed.
+
+Lemma purged_ids h l l' : Forall2 (purged h) l l' -> map sp_id l' = map sp_id l.
+Proof. induction 1 as [|s s' l l' [E _] _ IH]; cbn [map]; [reflexivity|]. now rewrite E, IH. Qed.
+
+Lemma filter_incl' {A} (g : A -> bool) l x : In x (filter g l) -> In x l.
+Proof. intros H. apply filter_In in H. apply H. Qed.
+
+(* ---------- prepareForReproduction ---------- *)
+(* the phases, exposed *)
+Theorem prepare_phases o p st p1 sorted best st1 :
+  prepare o p st = Ok ((p1, sorted, best), st1) ->
+  0 <= o_pop_size o ->
+  ids_nodup (p_species p) -> members_ok (p_heap p) (p_species p) -> S0 (p_heap p) ->
+  exists hA spsA p2 p5,
+    adjust_all o (p_heap p) (p_species p) = Ok (hA, spsA) /\
+    purge_zero_offspring (p_with p spsA (p_detached p) (p_orgs p) hA) = Ok p2 /\
+    heap_rel proj_e (p_heap p2) (p_heap p5) /\ map sp_shape (p_species p5) = map sp_shape (p_species p2) /\
+    Qb (p_heap p5) (p_species p5) /\ p_orgs p5 = p_orgs p2 /\ p_next_key p5 = p_next_key p2 /\
+    purge_organisms p5 = Ok p1.
+Proof.
+  intros H Hpop Hnd Hm Hs0. unfold prepare in H.
+  mbind H as r sA HA H. apply lift_ok in HA. destruct HA as [HA ->]. destruct r as [hA spsA].
+  pose proof HA as HA0.
+  apply adjust_all_frame in HA. destruct HA as [HrA HfA].
+  assert (HndA : ids_nodup spsA) by (unfold ids_nodup; now rewrite (Forall2_ids _ _ HfA)).
+  assert (HmA : members_ok hA spsA) by exact (members_ok_perm _ _ _ _ (heap_rel_weaken _ _ HrA) HfA Hm).
+  mbind H as p2 sB HB H. apply lift_ok in HB. destruct HB as [HB ->].
+  pose proof HB as HB0.
+  apply purge_zero_frame in HB. cbn [p_with p_heap p_species p_orgs p_next_key] in HB.
+  destruct HB as [HrB [HoB [HnB [HndB HspB]]]]. specialize (HndB HndA).
+  assert (HmB : members_ok (p_heap p2) (p_species p2)).
+  { intros s' k Hin Hk. destruct (HspB s' Hin) as [_ [s [Hs E]]]. unfold sp_shape in E. injection E as Eid Eo.
+    rewrite Eo in Hk. destruct (HmA s k Hs Hk) as [x [Hx Esp]].
+    destruct (heap_rel_gs_fwd _ _ _ _ (heap_rel_weaken_e _ _ (heap_rel_weaken_be _ _ HrB)) Hx) as [x' [Hx' [_ Es]]].
+    exists x'. split; [exact Hx'|congruence]. }
+  assert (He0B : E0 (p_species p2)) by (intros s Hin; destruct (HspB s Hin) as [Hgt _]; lia).
+  assert (Hs0B : S0 (p_heap p2)) by exact (S0_rel _ _ (heap_rel_weaken_bs _ _ HrB) (S0_rel _ _ HrA Hs0)).
+  pose proof (sort_desc_perm (species_lt (p_heap p2)) (p_species p2)) as Hperm.
+  destruct (sort_desc (species_lt (p_heap p2)) (p_species p2)) as [|bs srt] eqn:Esrt; [discriminate|].
+  mbind H as c sC HC H. apply lift_ok in HC. destruct HC as [HC ->].
+  destruct (first_org_member _ _ _ HC) as [_ HCg].
+  set (h3 := hset (p_heap p2) (o_with_popchamp c true)) in *.
+  assert (Hr3 : heap_rel proj_b (p_heap p2) h3) by (now apply (heap_rel_hset _ _ c)).
+  set (p4 := if PrimFloat.ltb (p_highest (p_with_heap p2 h3)) (o_orig c)
+             then p_with_stagnation (p_with_heap p2 h3) (o_orig c) 0
+             else p_with_stagnation (p_with_heap p2 h3) (p_highest (p_with_heap p2 h3)) (p_epochs_highest (p_with_heap p2 h3) + 1)) in *.
+  assert (Hp4 : p_heap p4 = h3 /\ p_species p4 = p_species p2 /\ p_orgs p4 = p_orgs p2 /\ p_next_key p4 = p_next_key p2)
+    by (unfold p4; destruct (PrimFloat.ltb _ _); repeat split).
+  destruct Hp4 as [Hh4 [Hsp4 [Ho4 Hn4]]].
+  assert (Hnd4 : ids_nodup (p_species p4)) by now rewrite Hsp4.
+  assert (Hm4 : members_ok (p_heap p4) (p_species p4)).
+  { rewrite Hh4, Hsp4.
+    exact (members_ok_shape _ _ _ _ (heap_rel_weaken_e _ _ (heap_rel_weaken_be _ _ Hr3)) eq_refl HmB). }
+  assert (Hs04 : S0 (p_heap p4)) by (rewrite Hh4; exact (S0_rel _ _ (heap_rel_weaken_bs _ _ Hr3) Hs0B)).
+  assert (He04 : E0 (p_species p4)) by now rewrite Hsp4.
+  mbind H as p5 sE HE H.
+  assert (HE' : prep_post p4 p5).
+  { destruct (Z.geb (p_epochs_highest p4) (o_dropoff o + 5)).
+    - apply lift_ok in HE. destruct HE as [HE _]. apply (delta_coding_inv _ _ _ _ HE); try assumption.
+      apply (Permutation_NoDup (l := map sp_id (p_species p2))); [|exact HndB].
+      apply Permutation_map. apply Permutation_sym. exact Hperm.
+    - destruct (Z.gtb (o_babies_stolen o) 0) eqn:Ebs.
+      + apply Z.gtb_lt in Ebs. exact (give_babies_inv _ _ _ Ebs Hnd4 Hm4 Hs04 He04 _ _ _ HE).
+      + apply ret_ok in HE. destruct HE as [<- _]. unfold prep_post.
+        split; [now apply S0_E0_Qb|]. split; [apply heap_rel_refl|]. now repeat split. }
+  destruct HE' as [Hq5 [Hr5 [Hsh5 [Ho5 Hn5]]]].
+  mbind H as p6 sF HF H. apply lift_ok in HF. destruct HF as [HF ->].
+  apply ret_ok in H. destruct H as [H _]. injection H as <- _ _.
+  exists hA, spsA, p2, p5. split; [exact HA0|]. split; [exact HB0|]. split.
+  - rewrite Hh4 in Hr5. exact (heap_rel_trans _ _ _ _ (heap_rel_weaken_be _ _ Hr3) Hr5).
+  - split; [congruence|]. split; [exact Hq5|]. split; [congruence|]. split; [congruence|exact HF].
+Qed.
+
+Record prepared (p p1 : population) : Prop := {
+  pr_ids : ids_nodup (p_species p1);
+  pr_members : members_ok (p_heap p1) (p_species p1);
+  pr_quota : Qb (p_heap p1) (p_species p1);
+  pr_heap : heap_rel proj_gs (p_heap p) (p_heap p1);
+  pr_next : p_next_key p1 = p_next_key p;
+  pr_orgs : incl (p_orgs p1) (p_orgs p)
+}.
+
+Theorem prepare_frame o p st p1 sorted best st1 :
+  prepare o p st = Ok ((p1, sorted, best), st1) ->
+  0 <= o_pop_size o ->
+  ids_nodup (p_species p) -> members_ok (p_heap p) (p_species p) -> S0 (p_heap p) ->
+  prepared p p1.
+Proof.
+  intros H Hpop Hnd Hm Hs0.
+  destruct (prepare_phases _ _ _ _ _ _ _ H Hpop Hnd Hm Hs0) as [hA [spsA [p2 [p5 [HA [HB [Hr5 [Hsh5 [Hq5 [Ho5 [Hn5 HF]]]]]]]]]]].
+  apply adjust_all_frame in HA. destruct HA as [HrA HfA].
+  assert (HndA : ids_nodup spsA) by (unfold ids_nodup; now rewrite (Forall2_ids _ _ HfA)).
+  assert (HmA : members_ok hA spsA) by exact (members_ok_perm _ _ _ _ (heap_rel_weaken _ _ HrA) HfA Hm).
+  apply purge_zero_frame in HB. cbn [p_with p_heap p_species p_orgs p_next_key] in HB.
+  destruct HB as [HrB [HoB [HnB [HndB HspB]]]]. specialize (HndB HndA).
+  assert (HrB' : heap_rel proj_gs hA (p_heap p2)) by exact (heap_rel_weaken_e _ _ (heap_rel_weaken_be _ _ HrB)).
+  assert (HmB : members_ok (p_heap p2) (p_species p2)).
+  { intros s' k Hin Hk. destruct (HspB s' Hin) as [_ [s [Hs E]]]. unfold sp_shape in E. injection E as Eid Eo.
+    rewrite Eo in Hk. destruct (HmA s k Hs Hk) as [x [Hx Esp]].
+    destruct (heap_rel_gs_fwd _ _ _ _ HrB' Hx) as [x' [Hx' [_ Es]]]. exists x'. split; [exact Hx'|congruence]. }
+  unfold purge_organisms in HF. apply purge_organisms_loop_frame in HF.
+  destruct HF as [Hh6 [Hn6 [Hf6 Ho6]]].
+  assert (Hm5 : members_ok (p_heap p5) (p_species p5)) by exact (members_ok_shape _ _ _ _ (heap_rel_weaken_e _ _ Hr5) Hsh5 HmB).
+  constructor.
+  - unfold ids_nodup. rewrite (purged_ids _ _ _ Hf6), (shape_ids _ _ Hsh5). exact HndB.
+  - intros s' k Hin Hk. destruct (Forall2_In_r' _ _ _ _ Hf6 Hin) as [s [Hs [Eid [_ [g [Eo _]]]]]].
+    rewrite Eo in Hk. apply filter_incl' in Hk. rewrite Hh6, Eid. exact (Hm5 s k Hs Hk).
+  - intros s' k x Hin Hk Hx. destruct (Forall2_In_r' _ _ _ _ Hf6 Hin) as [s [Hs [_ [Ee [g [Eo _]]]]]].
+    rewrite Eo in Hk. apply filter_incl' in Hk. rewrite Hh6 in Hx. rewrite Ee. exact (Hq5 s k x Hs Hk Hx).
+  - rewrite Hh6. apply (heap_rel_trans _ _ _ _ (heap_rel_weaken _ _ HrA)).
+    exact (heap_rel_trans _ _ _ _ HrB' (heap_rel_weaken_e _ _ Hr5)).
+  - congruence.
+  - intros k Hk. destruct (Ho6 k Hk) as [Hin|[]]. rewrite Ho5, HoB in Hin. exact Hin.
 Qed.
